@@ -379,6 +379,7 @@ pub fn gen_script(t: &mut Tape, p: &Profile) -> Script {
         metrics_fail: t.chance(1, 10),
         log_enabled: false,
         spoil_app_after_start: None,
+        repeat_last_http: false,
     };
     s
 }
